@@ -21,7 +21,7 @@ import typing as T
 from ..core import Undecided, attr_chain, norm, short, names_in, walk_no_nested
 from ..paths import enumerate_paths, Path
 from ..consteval import fold_expr
-from .c02_model import model_for, NodeModel, fixed_spellings, params_of, bind_call, unroll_tables, MPARSER
+from .c02_model import model_for, NodeModel, fixed_spellings, params_of, bind_call, unroll_tables, split_parallel, MPARSER
 
 PREV = 'self.previous'
 
@@ -68,6 +68,7 @@ class St:
         self.entry = 'kept'                # what happened to the token the caller left in self.previous
         self.conds: T.List[T.Tuple[ast.AST, bool]] = []
         self.ret = '?'
+        self.tests: T.Dict[str, ast.AST] = {}   # local -> the test expression it was bound to (since the last advance)
 
     def copy(self) -> 'St':
         s = St()
@@ -82,6 +83,7 @@ class St:
         s.entry = self.entry
         s.conds = list(self.conds)
         s.ret = self.ret
+        s.tests = dict(self.tests)
         return s
 
     def sig(self) -> T.Any:
@@ -129,7 +131,7 @@ class Analyzer:
         self.model = model or model_for(repo)
         self.fixed = fixed_spellings(repo, self.model)
         self.free = self.model.carrier_free()
-        self.methods = {n: unroll_tables(f, self.mod) for n, f in self.mod.methods(cls).items()}   # constant-table loops enumerated
+        self.methods = {n: split_parallel(unroll_tables(f, self.mod)) for n, f in self.mod.methods(cls).items()}   # constant-table loops enumerated
         self.primitive = self._find_primitive()
         self.ctor_wrapper = self._find_ctor_wrapper()
         self.exempt = self._exempt_kinds()
@@ -332,6 +334,8 @@ class Analyzer:
         s.paths += 1
 
     def bad(self, node: T.Optional[ast.AST], msg: str) -> None:
+        if '(kind unknown)' in msg:
+            raise Undecided(f'{self.cls}.{self.fn}: a token whose kind could not be read from the consuming helper is judged: {msg[:160]}')
         if node is None:
             self.note_extra('entry token', self.fnnode, msg)
             return
@@ -371,6 +375,12 @@ class Analyzer:
                 return []
             st.truth[e.id] = val
             st.conds.append((e, val))
+            if e.id in st.tests:      # a condition bound to a name first: the test itself holds / fails
+                t = st.tests[e.id]
+                if isinstance(t, ast.UnaryOp) and isinstance(t.op, ast.Not):
+                    st.conds.append((t.operand, not val))
+                else:
+                    st.conds.append((t, val))
             return [st]
         if isinstance(e, ast.Call) and isinstance(e.func, ast.Name) and e.func.id == 'isinstance' and len(e.args) == 2:
             a, k = e.args
@@ -437,6 +447,8 @@ class Analyzer:
                     s2.truth.pop(target.id, None)
                 else:
                     self.bind(target.id, v, s2)
+                    if isinstance(value, (ast.Compare, ast.UnaryOp)):
+                        s2.tests[target.id] = value
                 out.append(s2)
             return out
         if isinstance(target, ast.Attribute):
@@ -508,6 +520,7 @@ class Analyzer:
                     self.bad(r.site, f'the fragment built by `{short(r.site)}` is dropped when `{name}` is rebound')
                     r.done = True
         st.cur.discard(name)
+        st.tests.pop(name, None)
         st.truth.pop(name, None)
         st.tidnames.discard(name)
 
@@ -762,10 +775,13 @@ class Analyzer:
 
     def infer_kind(self, st: St) -> T.Any:
         for e, val in reversed(st.conds):
-            if val and isinstance(e, ast.Compare) and len(e.ops) == 1 and isinstance(e.ops[0], (ast.Eq, ast.In)):
-                l = e.left
+            if isinstance(e, ast.Compare) and len(e.ops) == 1 and ((val and isinstance(e.ops[0], (ast.Eq, ast.In)))
+                                                                   or (not val and isinstance(e.ops[0], (ast.NotEq, ast.NotIn)))):
+                l, r_ = e.left, e.comparators[0]
+                if isinstance(e.ops[0], (ast.Eq, ast.NotEq)) and (norm(r_) == 'self.current.tid' or (isinstance(r_, ast.Name) and r_.id in st.tidnames)):
+                    l, r_ = r_, l      # swapped operands of ==
                 if norm(l) == 'self.current.tid' or (isinstance(l, ast.Name) and l.id in st.tidnames):
-                    return self.kind_from_expr(e.comparators[0])
+                    return self.kind_from_expr(r_)
         return None
 
     def is_exempt(self, kind: T.Any) -> bool:
@@ -797,6 +813,7 @@ class Analyzer:
         st.cur = set()
         st.consumed = min(2, st.consumed + 1)
         st.conds = []
+        st.tests = {}
         self.site(node, 'consume')
 
     def apply(self, name: str, e: ast.Call, st: St, want: T.Optional[bool]) -> T.List[T.Tuple[St, T.Tuple[T.Any, ...]]]:
